@@ -19,83 +19,98 @@ func pt(op string, p any) {
 
 type Int32 struct{ v atomic.Int32 }
 
-func (x *Int32) Load() int32            { pt("load", x); return x.v.Load() }
-func (x *Int32) Store(n int32)          { pt("store", x); x.v.Store(n) }
-func (x *Int32) Add(d int32) int32         { pt("add", x); return x.v.Add(d) }
-func (x *Int32) Swap(n int32) int32        { pt("swap", x); return x.v.Swap(n) }
+func (x *Int32) Load() int32                    { pt("load", x); return x.v.Load() }
+func (x *Int32) Store(n int32)                  { pt("store", x); x.v.Store(n) }
+func (x *Int32) Add(d int32) int32              { pt("add", x); return x.v.Add(d) }
+func (x *Int32) Swap(n int32) int32             { pt("swap", x); return x.v.Swap(n) }
 func (x *Int32) CompareAndSwap(o, n int32) bool { pt("cas", x); return x.v.CompareAndSwap(o, n) }
-func (x *Int32) And(m int32) int32         { pt("and", x); return x.v.And(m) }
-func (x *Int32) Or(m int32) int32          { pt("or", x); return x.v.Or(m) }
+func (x *Int32) And(m int32) int32              { pt("and", x); return x.v.And(m) }
+func (x *Int32) Or(m int32) int32               { pt("or", x); return x.v.Or(m) }
 
-func LoadInt32(p *int32) int32             { pt("load", p); return atomic.LoadInt32(p) }
-func StoreInt32(p *int32, n int32)         { pt("store", p); atomic.StoreInt32(p, n) }
-func AddInt32(p *int32, d int32) int32        { pt("add", p); return atomic.AddInt32(p, d) }
-func SwapInt32(p *int32, n int32) int32       { pt("swap", p); return atomic.SwapInt32(p, n) }
-func CompareAndSwapInt32(p *int32, o, n int32) bool { pt("cas", p); return atomic.CompareAndSwapInt32(p, o, n) }
+func LoadInt32(p *int32) int32          { pt("load", p); return atomic.LoadInt32(p) }
+func StoreInt32(p *int32, n int32)      { pt("store", p); atomic.StoreInt32(p, n) }
+func AddInt32(p *int32, d int32) int32  { pt("add", p); return atomic.AddInt32(p, d) }
+func SwapInt32(p *int32, n int32) int32 { pt("swap", p); return atomic.SwapInt32(p, n) }
+func CompareAndSwapInt32(p *int32, o, n int32) bool {
+	pt("cas", p)
+	return atomic.CompareAndSwapInt32(p, o, n)
+}
 
 type Int64 struct{ v atomic.Int64 }
 
-func (x *Int64) Load() int64            { pt("load", x); return x.v.Load() }
-func (x *Int64) Store(n int64)          { pt("store", x); x.v.Store(n) }
-func (x *Int64) Add(d int64) int64         { pt("add", x); return x.v.Add(d) }
-func (x *Int64) Swap(n int64) int64        { pt("swap", x); return x.v.Swap(n) }
+func (x *Int64) Load() int64                    { pt("load", x); return x.v.Load() }
+func (x *Int64) Store(n int64)                  { pt("store", x); x.v.Store(n) }
+func (x *Int64) Add(d int64) int64              { pt("add", x); return x.v.Add(d) }
+func (x *Int64) Swap(n int64) int64             { pt("swap", x); return x.v.Swap(n) }
 func (x *Int64) CompareAndSwap(o, n int64) bool { pt("cas", x); return x.v.CompareAndSwap(o, n) }
-func (x *Int64) And(m int64) int64         { pt("and", x); return x.v.And(m) }
-func (x *Int64) Or(m int64) int64          { pt("or", x); return x.v.Or(m) }
+func (x *Int64) And(m int64) int64              { pt("and", x); return x.v.And(m) }
+func (x *Int64) Or(m int64) int64               { pt("or", x); return x.v.Or(m) }
 
-func LoadInt64(p *int64) int64             { pt("load", p); return atomic.LoadInt64(p) }
-func StoreInt64(p *int64, n int64)         { pt("store", p); atomic.StoreInt64(p, n) }
-func AddInt64(p *int64, d int64) int64        { pt("add", p); return atomic.AddInt64(p, d) }
-func SwapInt64(p *int64, n int64) int64       { pt("swap", p); return atomic.SwapInt64(p, n) }
-func CompareAndSwapInt64(p *int64, o, n int64) bool { pt("cas", p); return atomic.CompareAndSwapInt64(p, o, n) }
+func LoadInt64(p *int64) int64          { pt("load", p); return atomic.LoadInt64(p) }
+func StoreInt64(p *int64, n int64)      { pt("store", p); atomic.StoreInt64(p, n) }
+func AddInt64(p *int64, d int64) int64  { pt("add", p); return atomic.AddInt64(p, d) }
+func SwapInt64(p *int64, n int64) int64 { pt("swap", p); return atomic.SwapInt64(p, n) }
+func CompareAndSwapInt64(p *int64, o, n int64) bool {
+	pt("cas", p)
+	return atomic.CompareAndSwapInt64(p, o, n)
+}
 
 type Uint32 struct{ v atomic.Uint32 }
 
-func (x *Uint32) Load() uint32            { pt("load", x); return x.v.Load() }
-func (x *Uint32) Store(n uint32)          { pt("store", x); x.v.Store(n) }
-func (x *Uint32) Add(d uint32) uint32         { pt("add", x); return x.v.Add(d) }
-func (x *Uint32) Swap(n uint32) uint32        { pt("swap", x); return x.v.Swap(n) }
+func (x *Uint32) Load() uint32                    { pt("load", x); return x.v.Load() }
+func (x *Uint32) Store(n uint32)                  { pt("store", x); x.v.Store(n) }
+func (x *Uint32) Add(d uint32) uint32             { pt("add", x); return x.v.Add(d) }
+func (x *Uint32) Swap(n uint32) uint32            { pt("swap", x); return x.v.Swap(n) }
 func (x *Uint32) CompareAndSwap(o, n uint32) bool { pt("cas", x); return x.v.CompareAndSwap(o, n) }
-func (x *Uint32) And(m uint32) uint32         { pt("and", x); return x.v.And(m) }
-func (x *Uint32) Or(m uint32) uint32          { pt("or", x); return x.v.Or(m) }
+func (x *Uint32) And(m uint32) uint32             { pt("and", x); return x.v.And(m) }
+func (x *Uint32) Or(m uint32) uint32              { pt("or", x); return x.v.Or(m) }
 
-func LoadUint32(p *uint32) uint32             { pt("load", p); return atomic.LoadUint32(p) }
-func StoreUint32(p *uint32, n uint32)         { pt("store", p); atomic.StoreUint32(p, n) }
-func AddUint32(p *uint32, d uint32) uint32        { pt("add", p); return atomic.AddUint32(p, d) }
-func SwapUint32(p *uint32, n uint32) uint32       { pt("swap", p); return atomic.SwapUint32(p, n) }
-func CompareAndSwapUint32(p *uint32, o, n uint32) bool { pt("cas", p); return atomic.CompareAndSwapUint32(p, o, n) }
+func LoadUint32(p *uint32) uint32           { pt("load", p); return atomic.LoadUint32(p) }
+func StoreUint32(p *uint32, n uint32)       { pt("store", p); atomic.StoreUint32(p, n) }
+func AddUint32(p *uint32, d uint32) uint32  { pt("add", p); return atomic.AddUint32(p, d) }
+func SwapUint32(p *uint32, n uint32) uint32 { pt("swap", p); return atomic.SwapUint32(p, n) }
+func CompareAndSwapUint32(p *uint32, o, n uint32) bool {
+	pt("cas", p)
+	return atomic.CompareAndSwapUint32(p, o, n)
+}
 
 type Uint64 struct{ v atomic.Uint64 }
 
-func (x *Uint64) Load() uint64            { pt("load", x); return x.v.Load() }
-func (x *Uint64) Store(n uint64)          { pt("store", x); x.v.Store(n) }
-func (x *Uint64) Add(d uint64) uint64         { pt("add", x); return x.v.Add(d) }
-func (x *Uint64) Swap(n uint64) uint64        { pt("swap", x); return x.v.Swap(n) }
+func (x *Uint64) Load() uint64                    { pt("load", x); return x.v.Load() }
+func (x *Uint64) Store(n uint64)                  { pt("store", x); x.v.Store(n) }
+func (x *Uint64) Add(d uint64) uint64             { pt("add", x); return x.v.Add(d) }
+func (x *Uint64) Swap(n uint64) uint64            { pt("swap", x); return x.v.Swap(n) }
 func (x *Uint64) CompareAndSwap(o, n uint64) bool { pt("cas", x); return x.v.CompareAndSwap(o, n) }
-func (x *Uint64) And(m uint64) uint64         { pt("and", x); return x.v.And(m) }
-func (x *Uint64) Or(m uint64) uint64          { pt("or", x); return x.v.Or(m) }
+func (x *Uint64) And(m uint64) uint64             { pt("and", x); return x.v.And(m) }
+func (x *Uint64) Or(m uint64) uint64              { pt("or", x); return x.v.Or(m) }
 
-func LoadUint64(p *uint64) uint64             { pt("load", p); return atomic.LoadUint64(p) }
-func StoreUint64(p *uint64, n uint64)         { pt("store", p); atomic.StoreUint64(p, n) }
-func AddUint64(p *uint64, d uint64) uint64        { pt("add", p); return atomic.AddUint64(p, d) }
-func SwapUint64(p *uint64, n uint64) uint64       { pt("swap", p); return atomic.SwapUint64(p, n) }
-func CompareAndSwapUint64(p *uint64, o, n uint64) bool { pt("cas", p); return atomic.CompareAndSwapUint64(p, o, n) }
+func LoadUint64(p *uint64) uint64           { pt("load", p); return atomic.LoadUint64(p) }
+func StoreUint64(p *uint64, n uint64)       { pt("store", p); atomic.StoreUint64(p, n) }
+func AddUint64(p *uint64, d uint64) uint64  { pt("add", p); return atomic.AddUint64(p, d) }
+func SwapUint64(p *uint64, n uint64) uint64 { pt("swap", p); return atomic.SwapUint64(p, n) }
+func CompareAndSwapUint64(p *uint64, o, n uint64) bool {
+	pt("cas", p)
+	return atomic.CompareAndSwapUint64(p, o, n)
+}
 
 type Uintptr struct{ v atomic.Uintptr }
 
-func (x *Uintptr) Load() uintptr            { pt("load", x); return x.v.Load() }
-func (x *Uintptr) Store(n uintptr)          { pt("store", x); x.v.Store(n) }
-func (x *Uintptr) Add(d uintptr) uintptr         { pt("add", x); return x.v.Add(d) }
-func (x *Uintptr) Swap(n uintptr) uintptr        { pt("swap", x); return x.v.Swap(n) }
+func (x *Uintptr) Load() uintptr                    { pt("load", x); return x.v.Load() }
+func (x *Uintptr) Store(n uintptr)                  { pt("store", x); x.v.Store(n) }
+func (x *Uintptr) Add(d uintptr) uintptr            { pt("add", x); return x.v.Add(d) }
+func (x *Uintptr) Swap(n uintptr) uintptr           { pt("swap", x); return x.v.Swap(n) }
 func (x *Uintptr) CompareAndSwap(o, n uintptr) bool { pt("cas", x); return x.v.CompareAndSwap(o, n) }
-func (x *Uintptr) And(m uintptr) uintptr         { pt("and", x); return x.v.And(m) }
-func (x *Uintptr) Or(m uintptr) uintptr          { pt("or", x); return x.v.Or(m) }
+func (x *Uintptr) And(m uintptr) uintptr            { pt("and", x); return x.v.And(m) }
+func (x *Uintptr) Or(m uintptr) uintptr             { pt("or", x); return x.v.Or(m) }
 
-func LoadUintptr(p *uintptr) uintptr             { pt("load", p); return atomic.LoadUintptr(p) }
-func StoreUintptr(p *uintptr, n uintptr)         { pt("store", p); atomic.StoreUintptr(p, n) }
-func AddUintptr(p *uintptr, d uintptr) uintptr        { pt("add", p); return atomic.AddUintptr(p, d) }
-func SwapUintptr(p *uintptr, n uintptr) uintptr       { pt("swap", p); return atomic.SwapUintptr(p, n) }
-func CompareAndSwapUintptr(p *uintptr, o, n uintptr) bool { pt("cas", p); return atomic.CompareAndSwapUintptr(p, o, n) }
+func LoadUintptr(p *uintptr) uintptr            { pt("load", p); return atomic.LoadUintptr(p) }
+func StoreUintptr(p *uintptr, n uintptr)        { pt("store", p); atomic.StoreUintptr(p, n) }
+func AddUintptr(p *uintptr, d uintptr) uintptr  { pt("add", p); return atomic.AddUintptr(p, d) }
+func SwapUintptr(p *uintptr, n uintptr) uintptr { pt("swap", p); return atomic.SwapUintptr(p, n) }
+func CompareAndSwapUintptr(p *uintptr, o, n uintptr) bool {
+	pt("cas", p)
+	return atomic.CompareAndSwapUintptr(p, o, n)
+}
 
 type Bool struct{ v atomic.Bool }
 
@@ -113,10 +128,10 @@ func (x *Pointer[T]) CompareAndSwap(o, n *T) bool { pt("cas", x); return x.v.Com
 
 type Value struct{ v atomic.Value }
 
-func (x *Value) Load() any                     { pt("load", x); return x.v.Load() }
-func (x *Value) Store(n any)                   { pt("store", x); x.v.Store(n) }
-func (x *Value) Swap(n any) any                { pt("swap", x); return x.v.Swap(n) }
-func (x *Value) CompareAndSwap(o, n any) bool  { pt("cas", x); return x.v.CompareAndSwap(o, n) }
+func (x *Value) Load() any                    { pt("load", x); return x.v.Load() }
+func (x *Value) Store(n any)                  { pt("store", x); x.v.Store(n) }
+func (x *Value) Swap(n any) any               { pt("swap", x); return x.v.Swap(n) }
+func (x *Value) CompareAndSwap(o, n any) bool { pt("cas", x); return x.v.CompareAndSwap(o, n) }
 
 func LoadPointer(p *unsafe.Pointer) unsafe.Pointer     { pt("load", p); return atomic.LoadPointer(p) }
 func StorePointer(p *unsafe.Pointer, n unsafe.Pointer) { pt("store", p); atomic.StorePointer(p, n) }
